@@ -69,7 +69,9 @@ def apply(stmts, st, unit_starts=()):
         if k in ("blank", "comment"):
             i = op["at"] - 1
             # ordinary comments may contain anything: an unbalanced apostrophe, an ampersand, a semicolon
-            before[i].append("" if k == "blank" else ("! layout comment" if i % 2 else "! don't change nx & ny; plain comment"))
+            # ... or words that would be a declaration or an END statement if the comment were taken for code
+            before[i].append("" if k == "blank" else ["! don't change nx & ny; plain comment", "! layout comment", "! spacing is in metres; real values only",
+                                                      "! public data; end of the public part"][i % 4])
         elif k == "split":
             i = op["at"] - 1
             last = groups[i][-1]
@@ -83,13 +85,21 @@ def apply(stmts, st, unit_starts=()):
             if sp is None or "!" in last:
                 raise NotApplicable("statement %r has no blank to split at" % last)
             head, tail = pre + body0[:sp], body0[sp + 1:].lstrip()
+            if head.strip().isdigit():
+                raise NotApplicable("a statement label stays on the line of its statement")
             groups[i][-1] = head + " &"
             groups[i].append(ind + "    " + ("& " if op.get("lead") else "") + tail)
         elif k == "tcomment":
             i = op["at"] - 1
-            if "!" in groups[i][-1] or "'" in groups[i][-1]:
+            j = 0 if op.get("first") else -1
+            if "!" in groups[i][j] or "'" in groups[i][j]:
                 raise NotApplicable("statement already carries a comment or a string")
-            groups[i][-1] = groups[i][-1] + ("  ! note; end of this part" if i % 2 else "  ! note; don't merge & keep")
+            groups[i][j] = groups[i][j] + ("  ! note; end of this part" if i % 2 else "  ! note; don't merge & keep")
+        elif k == "icomment":
+            i = op["at"] - 1
+            if len(groups[i]) < 2:
+                raise NotApplicable("statement is not continued")
+            groups[i].insert(len(groups[i]) - 1, "" if op.get("what") == "blank" else "! between; the lines of a statement & more")
         elif k == "flush":
             flush = True
         elif k == "join":
@@ -133,6 +143,10 @@ def apply(stmts, st, unit_starts=()):
                 res.append("")
                 continue
             body = l.strip()
+            com = ""
+            ci = body.find("  ! ")
+            if ci >= 0:     # a trailing comment (behind the "&" of a continued line, too)
+                body, com = body[:ci].rstrip(), "   " + body[ci + 2:]
             nxt = body.endswith("&")
             if nxt:
                 body = body[:-1].rstrip()
@@ -141,9 +155,9 @@ def apply(stmts, st, unit_starts=()):
             import re as _re
             ml = _re.match(r"(\d+)\s+(.*)", body)
             if ml and not cont:
-                res.append("%5s %s" % (ml.group(1), ml.group(2)))   # statement label in columns 1-5
+                res.append("%5s %s" % (ml.group(1), ml.group(2)) + com)   # statement label in columns 1-5
             else:
-                res.append(("     &" if cont else "      ") + body)
+                res.append(("     &" if cont else "      ") + body + com)
             cont = nxt
         phys = res
     phys = [change_case(l, st["case"]) for l in phys]
